@@ -183,3 +183,8 @@ Theorem io_error_reported fs cs1 p cs2 :
 Proof.
   intros H1 H2. rewrite select_app, (nothing_found fs cs1 H1). cbn [select]. unfold probe. rewrite H2. reflexivity.
 Qed.
+
+(* the probing functions of resolve.go are textually the ones the model mirrors *)
+From GN Require Import Gen.RequireGlue Model.ResolveSrc.
+Lemma resolve_source_unchanged : resolve_src = expected_resolve_src.
+Proof. reflexivity. Qed.
